@@ -1914,7 +1914,10 @@ func c16_runC16(e *Env) {
 		"the result and the content of EVERY live container are compared with the Lean Impl model and the Lean Spec. " +
 		"kind `numsort`: lists of numbers of every magnitude -- ints drawn in clusters of neighbours around 2^53, 2^54, 2^60, 2^62, MaxInt64, MinInt64 (where float64 stops telling ints apart), small ints, bytes, small floats -- " +
 		"sorted again and again (l.sort(), l.sorted(), sorted(l), sorted(l, f)) between appends/inserts/assignments of further such numbers; every one-argument sort of numbers the real code performs is also judged against the reference reading Spec.isSortOf (ascending by exact value, stable, nothing lost). " +
-		"non-trivial: length >= 3 with >= 1 mutation and >= 1 boundary/negative/out-of-range index; distinct by (mode, initial objects, op list)"
+		"non-trivial: length >= 3 with >= 1 mutation and >= 1 boundary/negative/out-of-range index; distinct by (mode, initial objects, op list). " +
+		"Three further streams (keys C16s|…): `slicego` = one call of the real object.ResolveIntSlice (bounds omitted / int in [-n-3, n+3] / int64 extremes / wrongly typed; n in 0..8, sometimes up to 999) against the function translated from its source on this run (non-trivial: a bound is given); " +
+		"`insact` = one (*List).Insert on [0..n-1] (where the item lands vs the translated choice of slice operation); `alias` = 1-3 real lists of ints and 3..24 operations (append, item assignment, pop, slice, copy, extend, +, clear), compared after every step with the Lean lists-with-backing-arrays model " +
+		"and checked for pairwise disjoint backing arrays through List.Value() (non-trivial: a slice was taken and operations followed)"
 	nSeq := 12000
 	if !e.Quick {
 		nSeq = 200000
@@ -2010,6 +2013,9 @@ func c16_runC16(e *Env) {
 		}
 	}
 	flush()
+	// the translated index functions and the lists-with-backing-arrays model against the real code
+	// (before the long random stream, so that their mismatches are among those kept)
+	c16SliceStreams(e)
 	kinds := []string{"list", "list", "list", "map", "map", "set", "bytes", "string", "mixed", "mixed", "builtins", "builtins", "builtins", "iter", "iter", "iter", "numsort", "numsort"}
 	for i := 0; i < nSeq; i++ {
 		rng := e.Rng.Fork()
